@@ -38,6 +38,13 @@
 #define VF_LSAN_ON() ((void)0)
 #endif
 
+#if defined(VF_ASAN)
+// Memory budget: with the default 30-frame allocation contexts ASan's stack depot grows without bound over a long run of
+// generated cases (rapidcheck + templates give ever new allocation stacks; measured 1.2 GB after 12k cases, 92 MB with 8
+// frames). Options given in ASAN_OPTIONS by the engine still take precedence; the crash stack itself is not shortened.
+extern "C" const char* __asan_default_options() { return "malloc_context_size=8:quarantine_size_mb=64"; }
+#endif
+
 using namespace datasketches;
 using vf::Case; using vf::Op;
 
